@@ -62,6 +62,8 @@ type Contract struct {
 	PanicsNev    bool
 	HasWrites    bool
 	Writes       []Family
+	HasReads     bool     // a `reads` clause was given: every load from caller-visible memory lies in Reads ∪ Writes
+	Reads        []Family
 	Modifies     []Clause // whole-object frames (struct fields / maps)
 	Loops        map[int]*LoopSpec
 	Trusted      bool
@@ -119,7 +121,7 @@ type ContractSet struct {
 	Errors []string
 }
 
-var keywordRe = regexp.MustCompile(`^(?:(?:func|let|valid|requires|ensures|panics|writes|modifies|loop|invariant|decreases|ensures-after|panic-ensures|spec|lemma|pure|trusted|type|noread-before-write|inline|option|hyp|goal|var|witness|go-footprint|go-requires)\b|(?:overflow:|floats:|mode:|props:))`)
+var keywordRe = regexp.MustCompile(`^(?:(?:func|let|valid|requires|ensures|panics|writes|reads|modifies|loop|invariant|decreases|ensures-after|panic-ensures|spec|lemma|pure|trusted|type|noread-before-write|inline|option|hyp|goal|var|witness|go-footprint|go-requires)\b|(?:overflow:|floats:|mode:|props:))`)
 
 // desugarImplies rewrites `a ==> b` (lowest precedence, right associative, at
 // any nesting depth) into implies(a, b).
@@ -444,6 +446,19 @@ func (cs *ContractSet) ParseContractFile(fset *token.FileSet, pkgPath string, fi
 				}
 				cur.Writes = append(cur.Writes, f)
 			}
+		case "reads":
+			cur.HasReads = true
+			if rest == "nothing" {
+				continue
+			}
+			for _, fs := range splitTopAll(rest, ";") {
+				f, err := parseFamily(fs)
+				if err != nil {
+					errf(l, "%v", err)
+					continue
+				}
+				cur.Reads = append(cur.Reads, f)
+			}
 		case "modifies":
 			for _, ms := range splitTopAll(rest, ",") {
 				if c, ok := mk(l, ms); ok {
@@ -697,7 +712,7 @@ func kindRole(kind string) string {
 	switch {
 	case strings.HasPrefix(kind, "go."):
 		return "go"
-	case kind == "frame" || kind == "call.frame" || kind == "noread" || kind == "modifies":
+	case kind == "frame" || kind == "call.frame" || kind == "rframe" || kind == "call.rframe" || kind == "noread" || kind == "modifies":
 		return "frame"
 	case kind == "post" || kind == "post.real" || kind == "after.real" || kind == "panic.post" || strings.HasPrefix(kind, "inv.") || kind == "lemma" || kind == "after" || kind == "dec":
 		return "value"
